@@ -311,6 +311,16 @@ pub fn import_lists_with(m: &Model, ctx: &mut Ctx, rule: &str, wildcard_option: 
                     }
                     continue;
                 }
+                // "exactly the imported symbols" (C12): the wildcard is the fallback for clauses with a symbol that may be an
+                // information object class (capitals and hyphens only) or a parameterized reference, and for nothing else
+                if rule.starts_with("C12") {
+                    let needs_fallback = symbols.iter().any(|s| s.contains("{}") || s.chars().all(|c| c.is_uppercase() || c == '-'));
+                    if wildcard != needs_fallback {
+                        ctx.violate(rule, "imports:wildcard-fallback", &f.file, crate::rules::util::span_line(cl),
+                            &format!("IMPORTS {} FROM Mod-B is rendered as `use super::mod_b::{{{}}}`: {}", symbols.join(", "), names.join(", "),
+                                if wildcard { "a clause of ordinary type and value references becomes a use declaration of exactly those symbols, not `*`" } else { "a symbol that may be a class or a parameterized reference needs the `*` fallback" }));
+                    }
+                }
                 let missing: Vec<&&str> = symbols.iter().filter(|s| !names.iter().any(|n| n.ends_with(&format!(":{}", s)))).collect();
                 if !wildcard && !missing.is_empty() {
                     ctx.violate(rule, "imported-symbol-not-in-scope", &f.file, crate::rules::util::span_line(cl),
